@@ -124,6 +124,20 @@ Theorem C04_exception_resets : forall fuel bs s s' evs pop,
 Proof. exact process_keys_raised. Qed.
 Print Assumptions C04_exception_resets.
 
+(* round 6: a handler that calls process_keys() itself (action [AProcess]).  With nothing to take from
+   the queue the inner call is a no-op; otherwise it raises out of the handler (the generator is already
+   executing), nothing else the handler would have done happens, and by C04_exception_resets the
+   processor is left fresh - the whole queue, the taken item included, is what the reset discards. *)
+Theorem C04_reentry_noop : forall acts e q d, has_next q d = false ->
+  run_actions (AProcess :: acts) e q d = run_actions acts e q d.
+Proof. exact reentry_noop. Qed.
+Print Assumptions C04_reentry_noop.
+
+Theorem C04_reentry_raises : forall acts e q d, has_next q d = true ->
+  run_actions (AProcess :: acts) e q d = mkhres e q d [] true.
+Proof. exact reentry_raises. Qed.
+Print Assumptions C04_reentry_raises.
+
 (* process_keys may legitimately not terminate (a handler can feed its own
    key); whenever it finishes, the fuel is irrelevant, and with handlers
    that only flip conditions or raise one step per queued item suffices *)
@@ -185,10 +199,10 @@ Print Assumptions C04_filter_initial.
    lookups, a lookup through any object (KeyBindings or any nesting of merged,
    conditional, dynamic, global-only wrappers) equals the uncached getter on
    the object's current binding list [denot], which [C04_denot] spells out *)
-Theorem C04_cache_coherent : forall s0 ops w i ks,
-  Inv s0 -> let s := fold_left rstep ops s0 in
+Theorem C04_cache_coherent : forall mx s0 ops w i ks,
+  Inv s0 -> let s := fold_left (rstep mx) ops s0 in
   (i < length s)%nat ->
-  snd (lookup (S (length s)) w s i ks) = getter w (denot s i) ks /\
+  snd (lookup mx (S (length s)) w s i ks) = getter w (denot s i) ks /\
   snd (upd (S (length s)) s i) = denot s i.
 Proof. exact cache_coherent. Qed.
 Print Assumptions C04_cache_coherent.
@@ -207,9 +221,35 @@ Print Assumptions C04_denot.
 
 (* the invariant is kept by every operation, so [C04_cache_coherent] and [C04_denot]
    (which needs [wfs] of the store after the history) compose from this file alone *)
-Theorem C04_history_inv : forall ops s, Inv s -> Inv (fold_left rstep ops s).
+Theorem C04_history_inv : forall mx ops s, Inv s -> Inv (fold_left (rstep mx) ops s).
 Proof. exact history_inv. Qed.
 Print Assumptions C04_history_inv.
+
+(* round 6: SimpleCache eviction (the oldest entry goes when a cache exceeds its maxsize) is
+   inside the model ([cache_put]); [mx] = the two maxsize values, ANY values.  Whatever they
+   are - one entry or unbounded - the same history gives the same result for every lookup and
+   every `.bindings`: evicting never changes what is dispatched.  (C04_cache_coherent above
+   already holds for every [mx].) *)
+Theorem C04_eviction_transparent : forall mx mx' s0 ops w i ks,
+  Inv s0 ->
+  let s := fold_left (rstep mx) ops s0 in
+  let t := fold_left (rstep mx') ops s0 in
+  (i < length s)%nat ->
+  snd (lookup mx (S (length s)) w s i ks) = snd (lookup mx' (S (length t)) w t i ks) /\
+  snd (upd (S (length s)) s i) = snd (upd (S (length t)) t i).
+Proof. exact eviction_transparent. Qed.
+Print Assumptions C04_eviction_transparent.
+
+(* a cache within its maxsize stays within it, and eviction does occur (maxsize 1, two keys) *)
+Theorem C04_cache_bounded : forall mx ks r c, (length c <= mx)%nat -> (length (cache_put mx ks r c) <= mx)%nat.
+Proof. exact cache_put_length. Qed.
+Print Assumptions C04_cache_bounded.
+
+Theorem C04_eviction_happens :
+  let s := fold_left (rstep (1%nat, 1%nat)) [RLookup true 0%nat [1]; RLookup true 0%nat [2]] [OKB [] 0 [] []] in
+  s = [OKB [] 0 [([2], [])] []].
+Proof. exact eviction_happens. Qed.
+Print Assumptions C04_eviction_happens.
 
 Theorem C04_inv_wfs : forall s, Inv s -> wfs s.
 Proof. exact Inv_wfs. Qed.
